@@ -16,6 +16,7 @@ import (
 	"math"
 	"os"
 	"path/filepath"
+	"runtime"
 	"sort"
 	"strings"
 	"sync"
@@ -34,6 +35,7 @@ import (
 	cid "github.com/nspcc-dev/neofs-sdk-go/container/id"
 	"github.com/nspcc-dev/neofs-sdk-go/object"
 	oid "github.com/nspcc-dev/neofs-sdk-go/object/id"
+	"github.com/nspcc-dev/neofs-sdk-go/user"
 	"go.uber.org/zap"
 )
 
@@ -74,9 +76,9 @@ func boltOpts() *bbolt.Options {
 	return &bbolt.Options{NoSync: true, NoFreelistSync: true, Timeout: time.Second}
 }
 
-func buildWorld(c *corpus) *world {
+func buildWorld(c *corpus, replica int) *world {
 	w := &world{c: c}
-	dir := filepath.Join(tmpDir, c.name)
+	dir := filepath.Join(tmpDir, fmt.Sprintf("%s-%d", c.name, replica))
 	fatalIf(os.MkdirAll(dir, 0o755), "mkdir")
 	w.db = meta.New(meta.WithPath(filepath.Join(dir, "meta.db")), meta.WithEpochState(epochState{}), meta.WithLogger(zap.NewNop()),
 		meta.WithBoltDBOptions(boltOpts()), meta.WithMaxBatchSize(1), meta.WithMaxBatchDelay(time.Microsecond), meta.WithSearchIterationLimit(0))
@@ -281,7 +283,35 @@ func allFilters(c *corpus) []qfilter {
 	}
 	add(kAssoc, mNotPresent, "", true)
 	add(kAssoc, mPrefix, "", true)
-	return out
+	// EQ with a value that is not a complete owner / object ID / checksum / split ID: whether that is a valid query
+	// (empty answer) or an invalid one (error) is not stated anywhere; not enumerated. PREFIX with such values is
+	// (the repository's own search test-suite uses partial Base58 / hex prefixes).
+	var kept []qfilter
+	for _, f := range out {
+		if f.M == mEQ {
+			switch keyKind(f.K) {
+			case "owner":
+				if _, err := user.DecodeString(f.V); err != nil {
+					continue
+				}
+			case "oid":
+				var id oid.ID
+				if id.DecodeString(f.V) != nil {
+					continue
+				}
+			case "checksum":
+				if len(f.V) != 64 {
+					continue
+				}
+			case "splitid":
+				if len(f.V) != 36 {
+					continue
+				}
+			}
+		}
+		kept = append(kept, f)
+	}
+	return kept
 }
 
 // ---------- running a query ----------
@@ -302,7 +332,42 @@ func sdkFilters(fs []filter) object.SearchFilters {
 	return out
 }
 
+// queryClass: structural class of a (minimised) query. Single-filter queries keep the matcher (numeric matchers
+// collapsed to NUM); in multi-filter queries a matcher is reduced to its kind (str / num / absent / flag) and the
+// role of the filter (primary, same key as the primary, other key).
 func queryClass(q *query) string {
+	mk := func(m int, single bool) string {
+		switch {
+		case isNum(m):
+			return map[bool]string{true: "NUM", false: "num"}[single]
+		case m == mNotPresent:
+			return map[bool]string{true: "NOT_PRESENT", false: "absent"}[single]
+		case m == mNone:
+			return "flag"
+		}
+		if single {
+			return mNames[m]
+		}
+		return "str"
+	}
+	a := "no-attrs"
+	if len(q.Attrs) > 0 {
+		a = "attrs-requested"
+	}
+	if len(q.Fs) == 0 {
+		return "unfiltered"
+	}
+	// a single COMMON_PREFIX filter whose value is not a complete value of a binary-stored attribute
+	// (owner, object ID, checksum, split ID): one structural class whatever the attribute
+	if len(q.Fs) == 1 && q.Fs[0].M == mPrefix && partialBinaryValue(q.Fs[0]) {
+		return "prim:binary-stored-attribute:PREFIX-with-partial-value;" + a
+	}
+	allSameKey := len(q.Fs) > 1
+	for _, f := range q.Fs[1:] {
+		if f.K != q.Fs[0].K {
+			allSameKey = false
+		}
+	}
 	var parts []string
 	for i, f := range q.Fs {
 		role := "prim"
@@ -313,14 +378,11 @@ func queryClass(q *query) string {
 				role = "other-key"
 			}
 		}
-		parts = append(parts, role+":"+keyKind(f.K)+":"+mNames[f.M])
-	}
-	a := "no-attrs"
-	if len(q.Attrs) > 0 {
-		a = "attrs-requested"
-	}
-	if len(parts) == 0 {
-		return "unfiltered"
+		if allSameKey { // several filters on one attribute: the kind of the attribute does not matter
+			parts = append(parts, role+":"+mk(f.M, false))
+		} else {
+			parts = append(parts, role+":"+keyKind(f.K)+":"+mk(f.M, len(q.Fs) == 1))
+		}
 	}
 	return strings.Join(parts, "+") + ";" + a
 }
@@ -403,6 +465,22 @@ func safeSelect(s searcher, cnr cid.ID, fs object.SearchFilters) (res []oid.Addr
 	return
 }
 
+func partialBinaryValue(f filter) bool {
+	switch keyKind(f.K) {
+	case "owner":
+		_, err := user.DecodeString(f.V)
+		return err != nil
+	case "oid":
+		var id oid.ID
+		return id.DecodeString(f.V) != nil
+	case "checksum":
+		return len(f.V) != 64
+	case "splitid":
+		return len(f.V) != 36
+	}
+	return false
+}
+
 // value class of a filter value that the implementation refuses to take as a primary filter
 func valueClass(f filter) string {
 	switch {
@@ -445,7 +523,7 @@ func runPaged(w *world, s searcher, q *query, ref []item, valid bool) *failure {
 				return &failure{"cursor-rejected", fmt.Sprintf("%s: cursor returned by page %d is rejected: %v", fmtQuery(q), page, err), q}
 			}
 			if valid {
-				return &failure{"valid-query-rejected:" + valueClass(q.Fs[0]), fmt.Sprintf("%s: PreprocessSearchQuery: %v (reference result %s)", fmtQuery(q), err, fmtItems(ref)), q}
+				return &failure{"valid-query-rejected", fmt.Sprintf("%s: PreprocessSearchQuery: %v (reference result %s)", fmtQuery(q), err, fmtItems(ref)), q}
 			}
 			outcomes.Store("rejected-invalid", true)
 			return nil
@@ -610,7 +688,7 @@ func runSelect(w *world, s searcher, q *query, ref []item, valid bool) *failure 
 			return nil
 		}
 		if valid {
-			return &failure{"valid-query-rejected:" + valueClass(q.Fs[0]), fmt.Sprintf("%s: Select: %v (reference %s)", fmtQuery(q), err, fmtItems(ref)), q}
+			return &failure{"valid-query-rejected", fmt.Sprintf("%s: Select: %v (reference %s)", fmtQuery(q), err, fmtItems(ref)), q}
 		}
 		return nil
 	}
@@ -727,6 +805,12 @@ func checkShape(w *world, fs []filter, attrs []string, entries int) {
 	}
 	n := len(ref)
 	pages := []int{1, 2, 3, n, n + 1}
+	if r.Thorough() { // every page size
+		pages = pages[:0]
+		for p := 1; p <= n+1; p++ {
+			pages = append(pages, p)
+		}
+	}
 	sort.Ints(pages)
 	if valid {
 		avail := 0
@@ -829,13 +913,37 @@ func main() {
 		r.Fatal("tmp: %v", err)
 	}
 	cs := corpora()
-	worlds := map[string]*world{}
-	for _, c := range cs {
-		worlds[c.name] = buildWorld(c)
-		worldByName[c.name] = worlds[c.name]
+	// bbolt read transactions of one DB serialise on its meta lock: every worker gets its own replica of the worlds
+	// (same corpus, same IDs, separately built stores).
+	nrep := runtime.GOMAXPROCS(0)
+	if r.Replay != "" {
+		nrep = 1
 	}
+	pool := make(chan map[string]*world, nrep)
+	var allWorlds []*world
+	{
+		var mu sync.Mutex
+		enumx.Parallel(nrep, func(i int) {
+			ws := map[string]*world{}
+			for _, c := range cs {
+				ws[c.name] = buildWorld(c, i)
+			}
+			mu.Lock()
+			for _, w := range ws {
+				allWorlds = append(allWorlds, w)
+			}
+			if i == 0 {
+				for k, w := range ws {
+					worldByName[k] = w
+				}
+			}
+			mu.Unlock()
+			pool <- ws
+		})
+	}
+	worlds := worldByName
 	finish := func() {
-		for _, w := range worlds {
+		for _, w := range allWorlds {
 			w.db.Close()
 			w.sh.Close()
 		}
@@ -874,13 +982,13 @@ func main() {
 	}
 
 	type shape struct {
-		w  *world
+		w  string
 		fs []filter
 	}
 	var shapes []shape
 	counts := map[string]int{}
 	for _, c := range cs {
-		w := worlds[c.name]
+		w := c.name
 		F := allFilters(c)
 		var Q, T []qfilter
 		for _, f := range F {
@@ -906,10 +1014,6 @@ func main() {
 				if a.filter == b.filter {
 					continue
 				}
-				// keep the pair count of the thorough tier bounded: full set x full set only when one side is in the reduced set
-				if r.Thorough() && !a.quick && !b.quick {
-					continue
-				}
 				shapes = append(shapes, shape{w, []filter{a.filter, b.filter}})
 			}
 		}
@@ -932,9 +1036,11 @@ func main() {
 			return
 		}
 		s := shapes[i]
+		ws := <-pool
 		for _, attrs := range attrModes(s.fs) {
-			checkShape(s.w, s.fs, attrs, 2)
+			checkShape(ws[s.w], s.fs, attrs, 2)
 		}
+		pool <- ws
 		if i&0xff == 0 && r.Expired() {
 			expired.Store(true)
 		}
@@ -954,8 +1060,8 @@ func main() {
 		cd = append(cd, c.describe())
 	}
 	r.Set("corpora", cd)
-	r.Rule("every filter list = {} + every single filter of the per-corpus filter alphabet + every ordered pair (quick: of the reduced set; thorough: one side from the full alphabet) " +
-		"+ (thorough) triples over the reduced sets; x attrs {none, [primary], [primary, second]} x page sizes {1,2,3,N,N+1} through DB.Search, and {1,2,N+1} through Shard.Search, plus DB.Select/Shard.Select; " +
+	r.Rule("every filter list = {} + every single filter of the per-corpus filter alphabet + every ordered pair (quick: of the reduced set; thorough: of the full alphabet) " +
+		"+ (thorough) triples reduced x reduced x 8 third filters; x attrs {none, [primary], [primary, second]} x page sizes {1,2,3,N,N+1} (thorough: every size 1..N+1) through DB.Search, and {1,2,N+1} through Shard.Search, plus DB.Select/Shard.Select; " +
 		"one evaluation = one query paged to exhaustion; non-trivial = distinct valid (corpus, filters, attrs) whose reference result is non-empty")
 	r.Exhaustive(!expired.Load())
 	r.Assume("availability in the corpora is limited to unambiguous cases (tombstoned, default garbage mark, own expiration; one locked object): the full visibility rules are C01's subject",
